@@ -639,6 +639,13 @@ func (d *db) applyDeleteRange(batch WriteBatch, notifications *notifications, de
 		notifications.DeletedRange(delReq.StartInclusive, delReq.EndExclusive)
 	}
 
+	if delReq.EndExclusive == "" {
+		// No key sorts before the empty key, so the range is empty. An empty bound must not reach
+		// Pebble: whether it is honored or taken as "unbounded" depends on the state of Pebble's
+		// pooled iterators, so replicas applying the same entry could diverge.
+		return &proto.DeleteRangeResponse{Status: proto.Status_OK}, nil
+	}
+
 	it, err := batch.RangeScan(delReq.StartInclusive, delReq.EndExclusive)
 	if err != nil {
 		return nil, err
